@@ -264,9 +264,66 @@ def gen_case(rng, separable=None):
     return {'routes': routes, 'target': target, 'env': gen_env(rng), 'elements': els, 'ov': ov, 'kw': kw, 'meta': meta}
 
 
+# ---- histories: several generations in one process; remainder sequences hold non-string elements that are equal as
+# dictionary keys (1 == True == 1.0 == Decimal('1.00')) but print differently, in both orders
+def num_forms(k):
+    forms = [['i', k], ['n', k, '%d.0' % k], ['d', k, '%d' % k], ['d', k, '%d.0' % k], ['d', k, '%d.00' % k], ['s', '%d' % k]]
+    if k in (0, 1):
+        forms.append(['n', k, 'True' if k else 'False'])
+    return forms
+
+
+def gen_hist_case(rng):
+    for _ in range(30):
+        pattern, elems, star = gen_pattern(rng, True)
+        if star is not None:
+            break
+    else:
+        pattern, elems, star = '/s/*rest', [('lit', '/s/')], 'rest'
+    if rng.random() < 0.3:
+        pattern, elems, star = '/s/*rest', [('lit', '/s/')], 'rest'
+    holes = [(i, e) for i, e in enumerate(elems) if e[0] == 'hole']
+    k = rng.choice([0, 1, 1, 1, 2, 7])
+    forms = num_forms(k)
+    tail = [['s', rng.choice(['a', 'x y', '\xe9'])]] if rng.random() < 0.5 else []
+    calls = []
+    for _ in range(rng.choice([2, 2, 3, 4])):
+        kw = []
+        for i, e in holes:
+            nxt = elems[i + 1][1] if i + 1 < len(elems) and elems[i + 1][0] == 'lit' else ''
+            kw.append([e[1], typed(rng, sample_value(rng, e[2], nxt[:1]))])
+        r = rng.random()
+        if r < 0.8:
+            seq = [rng.choice(forms)] + tail
+            if rng.random() < 0.25:
+                seq = [rng.choice(forms)] + seq        # two equal keys inside one call
+        elif r < 0.9:
+            seq = [rng.choice(num_forms(rng.choice([0, 1, 2])))] + tail
+        else:
+            seq = [['s', gen_segment(rng)]]
+        kw.append([star, ['q', seq, rng.choice(['list', 'tuple'])]])
+        rng.shuffle(kw)
+        calls.append(kw)
+    return {'kind': 'hist', 'route': ['r', pattern], 'calls': calls, 'meta': {'hist': 1}}
+
+
+def hist_pairs():
+    """every ordered pair of forms of 0, 1, 2 on the plainest route"""
+    out = []
+    for k in (0, 1, 2):
+        fs = num_forms(k)
+        for a in fs:
+            for b in fs:
+                if a != b:
+                    out.append({'kind': 'hist', 'route': ['r', '/s/*rest'],
+                                'calls': [[['rest', ['q', [a, ['s', 'a']], 'tuple']]], [['rest', ['q', [b, ['s', 'a']], 'tuple']]]],
+                                'meta': {'hist': 1, 'targeted': 1}})
+    return out
+
+
 def generate(rng, tier, n):
     for _ in range(n):
-        yield gen_case(rng)
+        yield gen_hist_case(rng) if rng.random() < 0.12 else gen_case(rng)
 
 
 def simple_case(pattern, kw, script='', els=(), routes_after=(('catchall', '/*all'),)):
@@ -294,6 +351,9 @@ def targeted(rng):
         out.append(simple_case('/' + s + '/{x}/' + s, [['x', ['v', ['s', s]]]]))
         out.append(simple_case('/f/{x}.' + s, [['x', ['v', ['s', 'n']]]], els=[['s', s]]))
         out.append(simple_case('/g/*r', [['r', ['q', [['s', s], ['s', 'k']], 'list']]], script='/' + s))
+    out += hist_pairs()
+    for _ in range(200):
+        out.append(gen_hist_case(rng))
     for _ in range(400):
         out.append(gen_case(rng, True))
     return out
